@@ -49,7 +49,7 @@ def gen_case(rng):
                              containers=("plain", "plain", "plain", "gz", "bz2", "xz", "lz4"),
                              allow_degenerate=False, special=special, tie_heavy=rng.random() < 0.5,
                              crlf_p=rng.choice((0.0, 0.0, 0.3, 1.0)), blank_p=rng.choice((0.0, 0.1, 0.5)),
-                             preamble_p=0.25, first_line_max=None)
+                             preamble_p=0.25, first_line_max=None, notations=merge.NOTATIONS_WIDE)
     opts = ["--color", "never", "--blocksz", str(bsz), "--tz-offset", "+00:00"]
     sep = b""
     if rng.random() < 0.4:
